@@ -30,76 +30,99 @@ def run(chk):
         except Exception as e:
             chk.count("fit-rejected:" + type(e).__name__)
             continue
-        B = np.array(model.basis_matrix_)
-        n, m = B.shape
-        p = int(rng.integers(1, n + 1))
-        if rng.random() < 0.3:
-            p = m
-        model.set_number_of_sensors(p)
-        S = [int(i) for i in model.selected_sensors]
-        Bq = U.fr_mat(B)
-        BS = [Bq[i] for i in S]
-        in_span = rng.random() < 0.4
-        k = int(rng.integers(1, 4))
-        if in_span:
-            Y = (rng.integers(-8, 9, size=(k, m)) / 2.0) @ B[S].T
-        else:
-            Y = rng.integers(-16, 17, size=(k, p)) / 4.0
-        case = {**cfg, "n_sensors": p, "selected": S, "measurements": Y.tolist(), "in_span": in_span, "basis_matrix": B.tolist()}
-        rank = U.exact_rank(BS)
-        singular_square = (p == m and rank < m)
-        chk.case(case, nontrivial=(not in_span) or p != m)
-        chk.count("branch:" + ("square" if p == m else ("under" if p < m else "over")))
-        # ---- run the implementation: batch, each row as a 1-D vector, superposition
-        try:
-            out = impl.quiet(model.predict, Y.copy())
-        except Exception as e:
-            if singular_square:
-                chk.count("SINGULAR-SQUARE-SKIP")   # scipy.linalg.solve refuses an exactly singular system: no reconstruction is returned
-                continue
-            chk.violation("impl", "predict-raises", f"predict raised {type(e).__name__}: {e}", case)
-            continue
-        ctx = {**case, "observed": np.asarray(out).tolist()}
-        if np.shape(out) != (k, n):
-            chk.violation("impl", "predict-shape", f"a batch of {k} samples gave shape {np.shape(out)}, expected {(k, n)}", ctx)
-            continue
-        cond = np.linalg.cond(B[S]) if rank == min(p, m) else np.inf
-        scale = 1.0 + float(np.abs(Y).max()) * (1.0 + float(np.abs(B).max()))
-        if not np.isfinite(cond) or cond > 1e6 or singular_square:
-            chk.count("ILLCOND-SKIP")
-            continue
-        tol = 1e-9 * cond * cond * scale
-        one = impl.quiet(model.predict, Y[0].copy())
-        if np.shape(one) != (n,) or np.max(np.abs(one - out[0])) > tol:
-            chk.violation("impl", "vector-vs-batch", f"1-D input gives shape {np.shape(one)} / values differing from the one-row batch", ctx)
-        if k >= 2:
-            al, be = 0.5, -1.5
-            comb = impl.quiet(model.predict, (al * Y[0] + be * Y[1]).copy())
-            if np.max(np.abs(comb - (al * out[0] + be * out[1]))) > tol:
-                chk.violation("impl", "not-linear", "predict(a*y1 + b*y2) differs from a*predict(y1) + b*predict(y2)", ctx)
-        # wrong width is rejected
-        for bad in (np.zeros((2, p + 1)), np.zeros(p + 1)):
+        for rnd in range(2):
+            if rnd == 1:
+                # the SAME object moves on: refit on other data of the same shape / re-rank on the prefit basis with another seed /
+                # fewer basis modes; everything below must hold again for the new state
+                tr = int(rng.integers(0, 3))
+                try:
+                    if tr == 0:
+                        X2 = X + rng.integers(-8, 9, size=X.shape) / 4.0
+                        impl.quiet(model.fit, X2, quiet=True, seed=int(rng.integers(0, 100)))
+                        cfg = {**cfg, "then": "fit(other data)", "X2": X2.tolist()}
+                    elif tr == 1:
+                        impl.quiet(model.fit, X, prefit_basis=True, quiet=True, seed=int(rng.integers(100, 200)))
+                        cfg = {**cfg, "then": "fit(prefit_basis=True, other seed)"}
+                    else:
+                        kk = int(rng.integers(1, np.array(model.basis_matrix_).shape[1] + 1))
+                        impl.quiet(model.update_n_basis_modes, kk, quiet=True)
+                        cfg = {**cfg, "then": f"update_n_basis_modes({kk})"}
+                except Exception as e:
+                    chk.count("transition-rejected:" + type(e).__name__)
+                    break
+            B = np.array(model.basis_matrix_)
+            n, m = B.shape
+            p = int(rng.integers(1, n + 1))
+            if rng.random() < 0.3:
+                p = m
+            if rnd == 1 and rng.random() < 0.6:
+                p = min(p_prev, n)       # same sensor count as before the transition
+            p_prev = p
+            model.set_number_of_sensors(p)
+            S = [int(i) for i in model.selected_sensors]
+            Bq = U.fr_mat(B)
+            BS = [Bq[i] for i in S]
+            in_span = rng.random() < 0.4
+            k = int(rng.integers(1, 4))
+            if in_span:
+                Y = (rng.integers(-8, 9, size=(k, m)) / 2.0) @ B[S].T
+            else:
+                Y = rng.integers(-16, 17, size=(k, p)) / 4.0
+            case = {**cfg, "n_sensors": p, "selected": S, "measurements": Y.tolist(), "in_span": in_span, "basis_matrix": B.tolist()}
+            rank = U.exact_rank(BS)
+            singular_square = (p == m and rank < m)
+            chk.case(case, nontrivial=(not in_span) or p != m)
+            chk.count("branch:" + ("square" if p == m else ("under" if p < m else "over")))
+            # ---- run the implementation: batch, each row as a 1-D vector, superposition
             try:
-                impl.quiet(model.predict, bad)
-                chk.violation("impl", "wrong-width-accepted", f"predict accepted measurements of width {p + 1} for {p} sensors", ctx)
-            except ValueError:
-                pass
-        # ---- exact certificate per sample (untrusted solver), validated in Coq, compared with the float output
-        for r_ in range(k):
-            yq = [F(float(v)) for v in Y[r_]]
-            a, z = U.minnorm_lsq(BS, yq)
-            yhat = [sum(Bq[i][t] * a[t] for t in range(m)) for i in range(n)]
-            err = max(abs(float(yhat[i]) - float(out[r_][i])) for i in range(n))
-            if err > tol:
-                chk.violation("impl", "not-least-squares", f"predict differs from the exact minimum-norm least-squares reconstruction by {err:.3g} (tolerance {tol:.3g}, "
-                              f"{p} sensors, {m} modes)", {**ctx, "sample": r_, "exact": [float(v) for v in yhat]})
-            exprs.append(f"check_predict {n} {m} (of_rows {C.cqmat(Bq)}) {C.cnatlist(S)} {C.cqlist(yq)} {C.cqlist(a)} {C.cqlist(z)} {C.cqlist(yhat)}")
-            meta.append({**ctx, "sample": r_})
-            if r_ >= 1 and not thorough:
-                break
-        br = "Square" if p == m else "Rectangular"
-        exprs.append(f"match predict_shape {n} {m} {p} (Batch {k} {p}) with POk {br} (Batch {k} {n}) => true | _ => false end")
-        meta.append({**ctx, "what": "shape"})
+                out = impl.quiet(model.predict, Y.copy())
+            except Exception as e:
+                if singular_square:
+                    chk.count("SINGULAR-SQUARE-SKIP")   # scipy.linalg.solve refuses an exactly singular system: no reconstruction is returned
+                    continue
+                chk.violation("impl", "predict-raises", f"predict raised {type(e).__name__}: {e}", case)
+                continue
+            ctx = {**case, "observed": np.asarray(out).tolist()}
+            if np.shape(out) != (k, n):
+                chk.violation("impl", "predict-shape", f"a batch of {k} samples gave shape {np.shape(out)}, expected {(k, n)}", ctx)
+                continue
+            cond = np.linalg.cond(B[S]) if rank == min(p, m) else np.inf
+            scale = 1.0 + float(np.abs(Y).max()) * (1.0 + float(np.abs(B).max()))
+            if not np.isfinite(cond) or cond > 1e6 or singular_square:
+                chk.count("ILLCOND-SKIP")
+                continue
+            tol = 1e-9 * cond * cond * scale
+            one = impl.quiet(model.predict, Y[0].copy())
+            if np.shape(one) != (n,) or np.max(np.abs(one - out[0])) > tol:
+                chk.violation("impl", "vector-vs-batch", f"1-D input gives shape {np.shape(one)} / values differing from the one-row batch", ctx)
+            if k >= 2:
+                al, be = 0.5, -1.5
+                comb = impl.quiet(model.predict, (al * Y[0] + be * Y[1]).copy())
+                if np.max(np.abs(comb - (al * out[0] + be * out[1]))) > tol:
+                    chk.violation("impl", "not-linear", "predict(a*y1 + b*y2) differs from a*predict(y1) + b*predict(y2)", ctx)
+            # wrong width is rejected
+            for bad in (np.zeros((2, p + 1)), np.zeros(p + 1)):
+                try:
+                    impl.quiet(model.predict, bad)
+                    chk.violation("impl", "wrong-width-accepted", f"predict accepted measurements of width {p + 1} for {p} sensors", ctx)
+                except ValueError:
+                    pass
+            # ---- exact certificate per sample (untrusted solver), validated in Coq, compared with the float output
+            for r_ in range(k):
+                yq = [F(float(v)) for v in Y[r_]]
+                a, z = U.minnorm_lsq(BS, yq)
+                yhat = [sum(Bq[i][t] * a[t] for t in range(m)) for i in range(n)]
+                err = max(abs(float(yhat[i]) - float(out[r_][i])) for i in range(n))
+                if err > tol:
+                    chk.violation("impl", "not-least-squares", f"predict differs from the exact minimum-norm least-squares reconstruction by {err:.3g} (tolerance {tol:.3g}, "
+                                  f"{p} sensors, {m} modes)", {**ctx, "sample": r_, "exact": [float(v) for v in yhat]})
+                exprs.append(f"check_predict {n} {m} (of_rows {C.cqmat(Bq)}) {C.cnatlist(S)} {C.cqlist(yq)} {C.cqlist(a)} {C.cqlist(z)} {C.cqlist(yhat)}")
+                meta.append({**ctx, "sample": r_})
+                if r_ >= 1 and not thorough:
+                    break
+            br = "Square" if p == m else "Rectangular"
+            exprs.append(f"match predict_shape {n} {m} {p} (Batch {k} {p}) with POk {br} (Batch {k} {n}) => true | _ => false end")
+            meta.append({**ctx, "what": "shape"})
     files = []
     for i in range(0, len(exprs), 60):
         body = ("From Coq Require Import List Arith QArith Qcanon. Import ListNotations.\nFrom PS Require Import LA.Sums LA.Gram Recon.Predict.\n"
